@@ -18,6 +18,12 @@ for d in sorted(os.listdir(ROOT)):
         # run the target property's quick check against the patch
         out=subprocess.run(['/verif/tools_mutant_iso.sh', f'{dst}/patch.diff', d],capture_output=True,text=True).stdout
         mrc=re.search(r'rc=(\d+)',out)
+        tier='quick'
+        if mrc and mrc.group(1)=='0' and os.environ.get('THOROUGH_FALLBACK'):
+            env=dict(os.environ, MODE='thorough', VERIF_SCALE=os.environ.get('THOROUGH_SCALE','0.1'), VERIF_FUZZ_RUNS='200')
+            out=subprocess.run(['/verif/tools_mutant_iso.sh', f'{dst}/patch.diff', d],capture_output=True,text=True,env=env).stdout
+            mrc=re.search(r'rc=(\d+)',out)
+            tier='thorough (case counts scaled by '+env['VERIF_SCALE']+')'
         viol=re.search(r'violation: (.*?) VIOLATION',out,re.S)
         suite=re.findall(r'(\d+) passed; (\d+) failed',conf.get('suite_with_patch',''))
         meta={
@@ -33,10 +39,11 @@ for d in sorted(os.listdir(ROOT)):
             "demo_without_patch": conf.get('demo_without_patch','').strip(),
           },
           "check_result": {
-            "cmd": f"git -C /repo apply seeded/{key}/patch.diff && ./check {d} quick ; git -C /repo checkout -- .",
+            "tier": tier,
+            "cmd": f"git -C /repo apply seeded/{key}/patch.diff && ./check {d} " + ("quick" if tier=="quick" else "thorough") + " ; git -C /repo checkout -- .",
             "exit": int(mrc.group(1)) if mrc else None,
             "violation": (viol.group(1).strip()[:700] if viol else None),
           },
         }
         json.dump(meta,open(f'{dst}/meta.json','w'),indent=1)
-        print(key, 'check exit', meta['check_result']['exit'], (meta['check_result']['violation'] or '')[:100])
+        print(key, tier, 'check exit', meta['check_result']['exit'], (meta['check_result']['violation'] or '')[:100])
